@@ -251,4 +251,171 @@ theorem eul_eval_ofReal (n : ℕ) (A : ℝ) :
   rw [← eul_map Complex.ofRealHom n, eval_map]
   exact eval₂_at_apply Complex.ofRealHom A
 
+/-! ### the coded recursion `diffNum` is `θ` iterated -/
+
+open Complex in
+theorem toPoly_diffStep (den num : List ℝ) (order : ℕ) :
+    toPoly (diffStep den num order)
+      = theta (toPoly num) * toPoly den - C (order : ℂ) * toPoly num * theta (toPoly den) := by
+  simp only [diffStep, toPoly_addL, toPoly_mulL, toPoly_map_neg, toPoly_map_mul, toPoly_weightFrom,
+    real_ofNat, theta, Nat.cast_zero, C_0, zero_mul, zero_add, Complex.ofReal_natCast]
+  ring
+
+theorem diffNum_zero (num den : List ℝ) : diffNum num den 0 = num := by
+  simp [diffNum]
+
+theorem diffNum_succ (num den : List ℝ) (n : ℕ) :
+    diffNum num den (n + 1) = diffStep den (diffNum num den n) (n + 1) := by
+  simp [diffNum, List.range_succ, List.foldl_append]
+
+/-! ### the gammatone instance -/
+
+open Complex in
+theorem cexp_add_conj (t : ℝ) :
+    Complex.exp (I * t) + Complex.exp (-(I * t)) = ((2 * Real.cos t : ℝ) : ℂ) := by
+  have e1 : Complex.exp (I * t) = Complex.cos t + Complex.sin t * I := by
+    rw [mul_comm, Complex.exp_mul_I]
+  have e2 : Complex.exp (-(I * t)) = Complex.cos t - Complex.sin t * I := by
+    have : -(I * (t : ℂ)) = (-(t : ℂ)) * I := by ring
+    rw [this, Complex.exp_mul_I, Complex.cos_neg, Complex.sin_neg]; ring
+  rw [e1, e2]
+  push_cast
+  ring
+
+open Complex in
+/-- **closed form of the coded numerator at the centre frequency** (`x = e^{-jf}`, `v = A e^{-2jf}`):
+`2·N_n(x) = e^{jφ}·E_n(A)·(1 - v)^{n+1} + e^{-jφ}·E_n(v)·(1 - A)^{n+1}` -/
+theorem gt_sampled_closed_form (A f φ : ℝ) (n : ℕ) :
+    2 * polyEvalC (Complex.exp (-(I * f)))
+        (diffNum [Real.cos φ, -(A * Real.cos (f - φ))] [1, -(2 * A * Real.cos f), A ^ 2] n)
+      = Complex.exp (I * φ) * (eul n : ℂ[X]).eval (A : ℂ)
+          * (1 - A * Complex.exp (-(I * f)) ^ 2) ^ (n + 1)
+        + Complex.exp (-(I * φ)) * (eul n : ℂ[X]).eval (A * Complex.exp (-(I * f)) ^ 2)
+          * (1 - (A : ℂ)) ^ (n + 1) := by
+  have hs : ((-(2 * A * Real.cos f) : ℝ) : ℂ)
+      = -((A : ℂ) * Complex.exp (I * f) + (A : ℂ) * Complex.exp (-(I * f))) := by
+    rw [← mul_add, cexp_add_conj]; push_cast; ring
+  have hp : ((A ^ 2 : ℝ) : ℂ) = ((A : ℂ) * Complex.exp (I * f)) * ((A : ℂ) * Complex.exp (-(I * f))) := by
+    rw [mul_mul_mul_comm, ← Complex.exp_add, add_neg_cancel, Complex.exp_zero]; push_cast; ring
+  have hD : toPoly [1, -(2 * A * Real.cos f), A ^ 2]
+      = (1 - C ((A : ℂ) * Complex.exp (I * f)) * X) * (1 - C ((A : ℂ) * Complex.exp (-(I * f))) * X) := by
+    simp only [toPoly]
+    rw [hs, hp]
+    simp only [C_neg, C_add, C_mul, Complex.ofReal_one, C_1]
+    ring
+  have h1 : Complex.exp (I * φ) + Complex.exp (-(I * φ)) = ((2 * Real.cos φ : ℝ) : ℂ) := cexp_add_conj φ
+  have h2 : Complex.exp (I * φ) * ((A : ℂ) * Complex.exp (-(I * f)))
+      + Complex.exp (-(I * φ)) * ((A : ℂ) * Complex.exp (I * f))
+      = ((2 * (A * Real.cos (f - φ)) : ℝ) : ℂ) := by
+    have h := cexp_add_conj (f - φ)
+    have e1 : Complex.exp (I * φ) * ((A : ℂ) * Complex.exp (-(I * f)))
+        = (A : ℂ) * Complex.exp (-(I * ((f - φ : ℝ) : ℂ))) := by
+      rw [mul_left_comm, ← Complex.exp_add]; congr 2; push_cast; ring
+    have e2 : Complex.exp (-(I * φ)) * ((A : ℂ) * Complex.exp (I * f))
+        = (A : ℂ) * Complex.exp (I * ((f - φ : ℝ) : ℂ)) := by
+      rw [mul_left_comm, ← Complex.exp_add]; congr 2; push_cast; ring
+    rw [e1, e2, ← mul_add, add_comm (Complex.exp _), h]; push_cast; ring
+  have h0 : C 2 * toPoly [Real.cos φ, -(A * Real.cos (f - φ))]
+      = C (Complex.exp (I * φ)) * (1 - C ((A : ℂ) * Complex.exp (-(I * f))) * X)
+        + C (Complex.exp (-(I * φ))) * (1 - C ((A : ℂ) * Complex.exp (I * f)) * X) := by
+    have e : C (Complex.exp (I * φ)) * (1 - C ((A : ℂ) * Complex.exp (-(I * f))) * X)
+        + C (Complex.exp (-(I * φ))) * (1 - C ((A : ℂ) * Complex.exp (I * f)) * X)
+        = C (Complex.exp (I * φ) + Complex.exp (-(I * φ)))
+          - C (Complex.exp (I * φ) * ((A : ℂ) * Complex.exp (-(I * f)))
+              + Complex.exp (-(I * φ)) * ((A : ℂ) * Complex.exp (I * f))) * X := by
+      simp only [C_add, C_mul]; ring
+    rw [e, h1, h2]
+    simp only [toPoly]
+    push_cast
+    simp only [C_neg, C_add, C_mul]
+    ring
+  have key := diff_closed_form ((A : ℂ) * Complex.exp (I * f)) ((A : ℂ) * Complex.exp (-(I * f)))
+    (Complex.exp (I * φ)) (Complex.exp (-(I * φ))) (toPoly [1, -(2 * A * Real.cos f), A ^ 2])
+    (fun n => toPoly (diffNum [Real.cos φ, -(A * Real.cos (f - φ))]
+      [1, -(2 * A * Real.cos f), A ^ 2] n)) hD
+    (by simpa [diffNum_zero] using h0)
+    (fun n => by
+      show toPoly (diffNum _ _ (n + 1)) = _
+      rw [diffNum_succ, toPoly_diffStep]; push_cast; rfl) n
+  have hx1 : (A : ℂ) * Complex.exp (I * f) * Complex.exp (-(I * f)) = A := by
+    rw [mul_assoc, ← Complex.exp_add, add_neg_cancel, Complex.exp_zero, mul_one]
+  have hx2 : (A : ℂ) * Complex.exp (-(I * f)) * Complex.exp (-(I * f)) = A * Complex.exp (-(I * f)) ^ 2 := by
+    ring
+  have := congrArg (Polynomial.eval (Complex.exp (-(I * f)))) key
+  simp only [eval_mul, eval_add, eval_sub, eval_pow, eval_C, eval_one, eval_X, eval_toPoly, eulAt,
+    eval_comp, hx1, hx2] at this
+  exact this
+
+/-! ### non-vanishing at the centre frequency -/
+
+open Complex in
+theorem norm_cexp_I (t : ℝ) : ‖Complex.exp (I * t)‖ = 1 ∧ ‖Complex.exp (-(I * t))‖ = 1 := by
+  constructor
+  · rw [mul_comm]; exact Complex.norm_exp_ofReal_mul_I t
+  · have : -(I * (t : ℂ)) = ((-t : ℝ) : ℂ) * I := by push_cast; ring
+    rw [this]; exact Complex.norm_exp_ofReal_mul_I (-t)
+
+open Complex in
+/-- `|1 - A e^{-2jf}|² = (1 - A)² + 4 A sin² f` -/
+theorem norm_sq_one_sub_v (A f : ℝ) :
+    ‖1 - (A : ℂ) * Complex.exp (-(I * f)) ^ 2‖ ^ 2 = (1 - A) ^ 2 + 4 * A * Real.sin f ^ 2 := by
+  have e2 : Complex.exp (-(I * f)) = ((Real.cos f : ℝ) : ℂ) - ((Real.sin f : ℝ) : ℂ) * I := by
+    have : -(I * (f : ℂ)) = ((-f : ℝ) : ℂ) * I := by push_cast; ring
+    rw [this, Complex.exp_mul_I, ← Complex.ofReal_cos, ← Complex.ofReal_sin, Real.cos_neg, Real.sin_neg]
+    push_cast; ring
+  have hre : (1 - (A : ℂ) * Complex.exp (-(I * f)) ^ 2).re
+      = 1 - A * (Real.cos f ^ 2 - Real.sin f ^ 2) := by
+    rw [e2]; generalize Real.cos f = c; generalize Real.sin f = s; simp [pow_two]
+  have him : (1 - (A : ℂ) * Complex.exp (-(I * f)) ^ 2).im = 2 * A * Real.sin f * Real.cos f := by
+    rw [e2]; generalize Real.cos f = c; generalize Real.sin f = s; simp [pow_two]; ring
+  have h := Real.sin_sq_add_cos_sq f
+  rw [Complex.sq_norm, Complex.normSq_apply, hre, him]
+  linear_combination (-2 * A + A ^ 2 * (1 + Real.sin f ^ 2 + Real.cos f ^ 2)) * h
+
+theorem one_sub_lt_norm_one_sub_v (A f : ℝ) (hA0 : 0 < A) (hs : Real.sin f ≠ 0) :
+    1 - A < ‖1 - (A : ℂ) * Complex.exp (-(Complex.I * f)) ^ 2‖ := by
+  by_contra hcon
+  push Not at hcon
+  have h2 := pow_le_pow_left₀ (norm_nonneg _) hcon 2
+  rw [norm_sq_one_sub_v] at h2
+  have : 0 < 4 * A * Real.sin f ^ 2 := by positivity
+  linarith
+
+open Complex in
+/-- **the differentiated `gammatone.sampled` numerator never vanishes at the centre frequency**: for
+every number `n` of differentiations, every phase, `0 < A < 1`, `sin f ≠ 0`. -/
+theorem gt_sampled_num_ne_zero (A f φ : ℝ) (n : ℕ) (hA0 : 0 < A) (hA1 : A < 1) (hs : Real.sin f ≠ 0) :
+    polyMagSq (diffNum [Real.cos φ, -(A * Real.cos (f - φ))] [1, -(2 * A * Real.cos f), A ^ 2] n) f
+      ≠ 0 := by
+  rw [← normSq_polyEvalC]
+  intro h
+  have hz := Complex.normSq_eq_zero.1 h
+  have key := gt_sampled_closed_form A f φ n
+  rw [hz, mul_zero] at key
+  have hv : ‖(A : ℂ) * Complex.exp (-(I * f)) ^ 2‖ = A := by
+    rw [norm_mul, norm_pow, (norm_cexp_I f).2, one_pow, mul_one, Complex.norm_real,
+      Real.norm_of_nonneg hA0.le]
+  have hE := eul_eval_norm_le n ((A : ℂ) * Complex.exp (-(I * f)) ^ 2)
+  rw [hv] at hE
+  have hEA := eul_eval_pos n A hA0
+  have hlt := one_sub_lt_norm_one_sub_v A f hA0 hs
+  have h1A : ‖1 - (A : ℂ)‖ = 1 - A := by
+    have : (1 - (A : ℂ)) = ((1 - A : ℝ) : ℂ) := by push_cast; ring
+    rw [this, Complex.norm_real, Real.norm_of_nonneg (by linarith)]
+  have e : Complex.exp (I * φ) * (eul n : ℂ[X]).eval (A : ℂ)
+          * (1 - A * Complex.exp (-(I * f)) ^ 2) ^ (n + 1)
+      = -(Complex.exp (-(I * φ)) * (eul n : ℂ[X]).eval (A * Complex.exp (-(I * f)) ^ 2)
+          * (1 - (A : ℂ)) ^ (n + 1)) := by
+    linear_combination -key
+  have en := congrArg norm e
+  rw [norm_neg, norm_mul, norm_mul, norm_mul, norm_mul, norm_pow, norm_pow, (norm_cexp_I φ).1,
+    (norm_cexp_I φ).2, one_mul, one_mul, eul_eval_ofReal, Complex.norm_real,
+    Real.norm_of_nonneg hEA.le, h1A] at en
+  have hpow : (1 - A) ^ (n + 1) < ‖1 - (A : ℂ) * Complex.exp (-(I * f)) ^ 2‖ ^ (n + 1) :=
+    pow_lt_pow_left₀ hlt (by linarith) (Nat.succ_ne_zero n)
+  have hA' : (0 : ℝ) ≤ (1 - A) ^ (n + 1) := pow_nonneg (by linarith) _
+  have l1 := mul_lt_mul_of_pos_left hpow hEA
+  have l2 := mul_le_mul_of_nonneg_right hE hA'
+  linarith
+
 end ALV.C13
